@@ -22,6 +22,10 @@ CLAIMED = {
         text="C02.plan: whenever downgrade produces a plan it is exactly the applied revisions that build on the roots (the target's down-revision children / all revisions without down-revision for base, narrowed to the named branch), each once, no revision before an applied revision that needs it; an empty plan is only returned when the target is a current row (otherwise RangeNotAncestorError); C02.target_safe: the target and its prerequisites are never in the plan. Same _topological_sort proof as C01 (convexity and coverage of desc*(roots) ∩ applied proved). Model compared plan-for-plan with the real _downgrade_revs; Lean checkers downgradeOk/mustRefuse judge the implementation's plans.",
         note="as C01; the deprecated '-N from several heads' form depends on the row order of the SELECT, which is an explicit input.",
         technique=T_GENERIC),
+    "C03": dict(engine="rev", ref="6/C03",
+        text="C03.step / upgrade_run / downgrade_run: from a table consistent with the applied set (rows = the applied revisions no applied revision needs, no duplicates), recording any step of a plan Alembic produced (C01.UpgradePlan / C02.DowngradePlan) succeeds - every INSERT/UPDATE/DELETE hits exactly one row - and the table is consistent again after EVERY step, for every loaded history incl. merge points with redundant parents (the class of the repaired defects F2/F3); C03.init + induction over command sequences covers every state reachable from the empty table; all_applied_rows / none_applied_rows give the heads / empty-table corollaries. Compared step by step with the real HeadMaintainer on a live SQLite alembic_version table.",
+        note="as C01; version_table name/schema/pk settings do not enter the bookkeeping logic (correspondence only); rows are assumed to resolve to themselves (full ids).",
+        technique=T_GENERIC),
     "C04": dict(engine="online", ref="6/C04",
         text="Lean theorems over Model.Online.runFinal (begin_transaction decision tree, _ProxyTransaction.__exit__, per-step block of run_migrations, autocommit_block) for every plan length, every failing migration and every failure position, all (transactional_ddl, transaction_per_migration, external) settings: single_txn, per_migration, recorded_exactly_completed, nontransactional, rows_at_boundary, never_names_failed. Compared with the real MigrationContext on SQLite file databases (pysqlite default and the BEGIN recipe) with exhaustive failure positions; the Lean checker judges the post-failure observation of the real code.",
         note="backend DDL modes are a model (pysqlite legacy and SQLite BEGIN recipe validated live; PostgreSQL/MSSQL/MySQL servers not); single_txn/per_migration carry the hypothesis 'no autocommit_block before the failure'; version statements are parameters read from the real HeadMaintainer (row algebra is C03).",
@@ -62,6 +66,10 @@ CLAIMED = {
         text="Lexer round trip of delimiters and quote doubling for every dialect and every name (delimit_roundtrip, literal_roundtrip), needs_quotes, and per-construct token-shape theorems for 12 construct families x dialects with names universally quantified; F6/F7 (and PERCENT/TAB outside the listed classes) as counterexample + partial theorems and known findings. Real compiled strings compared exactly with the model on 6 dialects; the Lean lexer-based spec judges the implementation's strings.",
         note="the lexer/shapes describe the databases' grammars; SQLAlchemy-rendered type/default texts opaque; reserved words read from the live dialect; MSSQL sp_rename(table)/_ExecDrop* and MySQL DROP CONSTRAINT are modelled and compared but have no positive theorem; the _exec strip/TAB step is covered by correspondence only.",
         technique=T_GENERIC),
+    "C17": dict(engine="gen", ref="6/C17",
+        text="repr_roundtrip / repr_file (the four identifier assignments of script.py.mako decode to the requested values for ALL strings and tuples), incremental_partial (for every history that loads and every accepted new revision the incrementally updated map equals the reloaded map on ids, down revisions, resolved and normalised dependencies, children, label keys, heads, real heads, bases, real bases; full view when no labels), filename_suffix/accepted; counterexamples for the branch-label component (F5), the unescaped docstring (F12) and a '.#' id are kernel-checked and recorded as known findings. After every real generate_revision/command.revision/command.merge call the incremental ScriptDirectory is compared with a fresh one and with the model.",
+        note="Mako substitution is literal; Python tokenizer/importer and filesystem exercised live; \\w and str.lower() are parameters; 'the extended history loads' is a hypothesis of incremental_partial (checked on every case).",
+        technique=T_GENERIC),
     "C18": dict(engine="txn", ref="6/C18",
         text="Lean theorems over Model.Txn.runToks (mirror of begin_transaction/autocommit_block/run_migrations in --sql mode) prove the framing grammar for every number of migrations, every body, every (transactional_ddl, per_migration) setting; the model is compared token-for-token with the real MigrationContext on 5 dialects and the Lean recogniser is run on the implementation's own output.",
         note="version-statement counts and createVT/dropVT flags are parameters read from the implementation run; tokeniser of the output buffer is trusted.",
@@ -85,12 +93,13 @@ ENGINES = [
     ("filter", "lean/Model/Filter + lean/Model/Reverse", ["C20", "C09"], "autogenerate filters; op reversal"),
     ("batch", "lean/Model/Batch", ["C10", "C11"], "batch move-and-copy state machine, SQLite semantics"),
     ("offline", "lean/Model/Offline", ["C12"], "offline script vs online run on an abstract SQLite"),
-    ("rev", "lean/Model/Rev", ["C01", "C02", "C03", "C05", "C15", "C16", "C17"], "revision DAG, plans, version-table bookkeeping"),
+    ("gen", "lean/Model/Gen", ["C17"], "revision file generation and incremental map update"),
+    ("rev", "lean/Model/Rev", ["C01", "C02", "C03", "C05", "C15", "C16"], "revision DAG, plans, version-table bookkeeping"),
     ("diff", "lean/Model/Diff", ["C06", "C07"], "autogenerate diff on SQLite"),
     ("render", "lean/Model/Render + lean/Model/Py", ["C08"], "rendering of ops to Python source"),
 ]
 DRIVERS = {"txn": "drv_txn", "online": "drv_online", "alter": "drv_alter", "ident": "drv_ident", "files": "drv_files",
-           "filter": "drv_filter", "batch": "drv_batch", "offline": "drv_offline", "rev": "drv_rev", "diff": "drv_diff", "render": "drv_render"}
+           "filter": "drv_filter", "batch": "drv_batch", "offline": "drv_offline", "rev": "drv_rev", "gen": "drv_gen", "diff": "drv_diff", "render": "drv_render"}
 
 NOT_YET = {}
 
